@@ -31,6 +31,7 @@ type FuncCtx struct {
 	callCount    map[string]int
 	mutatedParam map[string]bool
 	loopOrd      map[*ssa.BasicBlock]int
+	nextLoop     int
 	loopHeadSt   map[*ssa.BasicBlock]*State
 	loopFrames   map[*ssa.BasicBlock][]string
 	ghostVars    map[string]SV
@@ -705,8 +706,24 @@ func (fc *FuncCtx) execFunc(fr *Frame, st0 *State) []retInfo {
 		hdrs = append(hdrs, h)
 	}
 	sort.Slice(hdrs, func(i, j int) bool { return hdrs[i].Index < hdrs[j].Index })
-	for i, h := range hdrs {
-		fc.loopOrd[h] = i + 1
+	if fn == fc.fn {
+		for i, h := range hdrs {
+			fc.loopOrd[h] = i + 1
+		}
+		fc.nextLoop = len(hdrs) + 1
+	} else {
+		// loops of an inlined function / closure: numbered after the function's own loops, in the order the inlined bodies are
+		// reached; their invariants are part of the enclosing function's contract and speak about its variables (and ret(..))
+		for _, h := range hdrs {
+			if _, dup := fc.loopOrd[h]; dup {
+				unsupported("loop of %s is inlined more than once into %s", fn.Name(), fc.short)
+			}
+			if fc.nextLoop == 0 {
+				fc.nextLoop = 1
+			}
+			fc.loopOrd[h] = fc.nextLoop
+			fc.nextLoop++
+		}
 	}
 	in := map[*ssa.BasicBlock][]edge{}
 	var rets []retInfo
@@ -734,9 +751,6 @@ func (fc *FuncCtx) execFunc(fr *Frame, st0 *State) []retInfo {
 			st, conds = v.mergeStates(sts)
 		}
 		if _, isHdr := ci.headers[b]; isHdr {
-			if fn != fc.fn {
-				unsupported("loop inside an inlined function/closure %s", fn.Name())
-			}
 			st = fc.loopHead(fr, ci, b, st)
 		}
 		terminated := false
@@ -1159,9 +1173,30 @@ func (fc *FuncCtx) scanCall(ci ssa.CallInstruction, fr *Frame, ws *writeSet, dep
 	}
 	spec := v.specFor(key)
 	if spec != nil && spec.Inline && callee != nil && len(callee.Blocks) > 0 {
-		nfr := &Frame{fn: callee, vals: map[ssa.Value]Val{}, free: map[*ssa.FreeVar]Val{}, fc: fc}
+		nfr := &Frame{fn: callee, vals: map[ssa.Value]Val{}, free: map[*ssa.FreeVar]Val{}, fc: fc, parent: fr}
+		// closures passed as arguments are called by the inlined body: their writes to captured cells belong to the write set
+		args := fc.allArgs(com)
+		for i, p := range callee.Params {
+			if i >= len(args) {
+				break
+			}
+			if mc, ok := args[i].(*ssa.MakeClosure); ok {
+				cl := &Closure{Fn: mc.Fn.(*ssa.Function)}
+				for _, b := range mc.Bindings {
+					cl.Bindings = append(cl.Bindings, fc.valOfStatic(fr, b))
+				}
+				nfr.vals[p] = Val{Clo: cl}
+			} else if pv, ok := fr.vals[args[i]]; ok && pv.Clo != nil {
+				nfr.vals[p] = pv
+			}
+		}
 		fc.scanWrites(callee.Blocks, nfr, ws, depth+1)
 		return
+	}
+	if spec == nil && clo == nil && !com.IsInvoke() && fr.fn != fc.fn && strings.HasPrefix(key, "dynamic:") {
+		// a function value called inside an inlined body that could not be resolved to a closure: it may be a closure of the
+		// verified function writing its variables
+		unsupported("write-set scan: call of an unresolved function value %s inside inlined %s", key, fr.fn.Name())
 	}
 	if spec != nil && !spec.Opaque {
 		if spec.Pure || spec.Def != nil {
@@ -1197,6 +1232,15 @@ func (fc *FuncCtx) scanCall(ci ssa.CallInstruction, fr *Frame, ws *writeSet, dep
 				if !found {
 					unsupported("modifies *%s of %s: no such pointer parameter", m.Args[0].Name, key)
 				}
+			case m.Kind == "un" && m.Name == "*" && m.Args[0].Kind == "call" && len(m.Args[0].Args) == 2 &&
+				(m.Args[0].Name == "cast" || m.Args[0].Name == "dyn" || m.Args[0].Name == "unbox"):
+				// *cast(x, *T): the object behind an interface value
+				tn := typeExprName(m.Args[0].Args[1])
+				_, gt, err := v.resolveType(tn)
+				if err != nil || gt == nil || pointee(gt) == nil {
+					unsupported("modifies %s of %s: cannot resolve pointer type %q", m, key, tn)
+				}
+				ws.globals[v.heapKeyFor(pointee(gt))] = true
 			case m.Kind == "call" && m.Name == "elems":
 				for i, n := range names {
 					if n == m.Args[0].Name {
